@@ -61,9 +61,9 @@ BATCHES = {
     "3": [
         ("C24", "late-data gate: lateness bound strict", R + "engine/mod.rs",
          "if event.timestamp >= effective_wm - cfg.allowed_lateness {", "if event.timestamp > effective_wm - cfg.allowed_lateness {", ""),
-        ("C21", "a store prunes the newest checkpoints", R + "persistence.rs",
-         "        let to_delete = checkpoints.len().saturating_sub(keep);\n\n        for id in checkpoints.iter().take(to_delete) {",
-         "        let to_delete = checkpoints.len().saturating_sub(keep);\n\n        for id in checkpoints.iter().rev().take(to_delete) {", ""),
+        ("C21", "the stores prune the newest checkpoints (all sites)", R + "persistence.rs",
+         "        for id in checkpoints.iter().take(to_delete) {",
+         "        for id in checkpoints.iter().rev().take(to_delete) {", "prune-oldest"),
         ("C30", "admission needs more than one token", K + "rate_limit.rs",
          "        self.refill();\n\n        if self.tokens >= 1.0 {", "        self.refill();\n\n        if self.tokens > 1.0 {", ""),
         ("C33", "sweep marks unhealthy at elapsed == timeout", K + "health.rs",
@@ -161,6 +161,10 @@ def main():
             s = open(p).read()
             if old is None:  # C16: first of the four function-local constants
                 open(p, "w").write(s.replace("const MAX_CHAIN_DEPTH: usize = 10;", "const MAX_CHAIN_DEPTH: usize = 5;", 1))
+                applied.append((prop, name, want))
+                continue
+            if name.endswith("(all sites)") and s.count(old) >= 1:
+                open(p, "w").write(s.replace(old, new))
                 applied.append((prop, name, want))
                 continue
             if s.count(old) != 1:
